@@ -643,7 +643,7 @@ fn get_region_name_and_type_definition<'a>(
     let region_name = region
         .name
         .clone()
-        .expect("region had no name, this shouldn't be possible");
+        .with_context(|| format!("a base field of type `{type_path}` has no name"))?;
 
     let Type::Raw(path) = &region.type_ref else {
         anyhow::bail!(
